@@ -248,6 +248,20 @@ impl<B: Buffer> Editor<B> {
     }
 }
 
+#[cfg(feature = "verif-hooks")]
+impl<B: Buffer> Editor<B> {
+    /// Raw view of the stored bytes, the cursor (in chars) and the buffer capacity
+    pub fn verif_raw(&self) -> (&[u8], usize, usize) {
+        let buf = self.buffer.as_slice();
+        (&buf[..self.valid.min(buf.len())], self.cursor, buf.len())
+    }
+
+    /// `valid` field as is (may exceed buffer len only if an invariant is broken)
+    pub fn verif_valid(&self) -> usize {
+        self.valid
+    }
+}
+
 #[cfg(test)]
 mod tests {
     use core::ops::RangeBounds;
